@@ -84,6 +84,8 @@ pub fn build(bins: &Binaries, repo: &Path, verif: &Path, thorough: bool, scratch
     let mut inputs = vec![];
     collect_files(&repo.join("res/examples"), &mut inputs);
     collect_files(&verif.join("corpus"), &mut inputs);
+    // (corpus/big only exists to give the C10 engines problems larger than a pipe buffer)
+    inputs.retain(|p| !p.starts_with(verif.join("corpus/big")));
     let mut seen = BTreeSet::new();
     let mut theories_accepted = 0;
     let mut theories_rejected = 0;
